@@ -368,16 +368,16 @@ func Font(c *explore.Ctx, o FontOpts) (*sfnt.Font, *FontSpec) {
 	if !o.NoLayout && n >= 3 {
 		var gs, gp, gd int
 		if o.Compact && !o.SubsetOnly {
-			combos := [][3]int{{0, 0, 0}, {1, 0, 1}, {2, 1, 0}, {0, 3, 2}, {3, 2, 0}, {4, 0, 1}}
+			combos := [][3]int{{0, 0, 0}, {1, 0, 1}, {2, 1, 0}, {0, 3, 2}, {3, 2, 0}, {4, 0, 1}, {5, 4, 3}}
 			k := combos[c.Choose(len(combos), "layout combination")]
 			gs, gp, gd = k[0], k[1], k[2]
 		} else {
-			gs = c.Choose(5, "gsub")
+			gs = c.Choose(6, "gsub")
 			if o.SubsetOnly {
 				gp = c.Choose(2, "gpos")
 			} else {
-				gp = c.Choose(4, "gpos")
-				gd = c.Choose(3, "gdef")
+				gp = c.Choose(5, "gpos")
+				gd = c.Choose(4, "gdef")
 			}
 		}
 		switch gs {
@@ -398,7 +398,19 @@ func Font(c *explore.Ctx, o FontOpts) (*sfnt.Font, *FontSpec) {
 				f.Gsub.LookupList[0].Meta.LookupFlags = gtab.IgnoreMarks
 			}
 		}
+		if gs == 5 {
+			// .notdef is a glyph like any other: coverage tables, class tables and pairs may start at glyph 0
+			spec.Gsub = "single 1.1 from glyph 0"
+			f.Gsub = simpleInfo("ss01", 1, &gtab.Gsub1_1{Cov: coverage.Set{0: true, 1: true}, Delta: 1})
+		}
 		switch gp {
+		case 4:
+			spec.Gpos = "pair 2.1 with glyph 0"
+			f.Gpos = simpleInfo("kern", 2, gtab.Gpos2_1{
+				{Left: 0, Right: 1}: {First: &gtab.GposValueRecord{XAdvance: -13}},
+				{Left: 2, Right: 0}: {First: &gtab.GposValueRecord{XAdvance: 17}},
+				{Left: 1, Right: 2}: {First: &gtab.GposValueRecord{XAdvance: -40}},
+			})
 		case 1:
 			spec.Gpos = "pair 2.1"
 			f.Gpos = simpleInfo("kern", 2, gtab.Gpos2_1{
@@ -421,6 +433,13 @@ func Font(c *explore.Ctx, o FontOpts) (*sfnt.Font, *FontSpec) {
 			})
 		}
 		switch gd {
+		case 3:
+			spec.Gdef = "classes+attach+marksets from glyph 0"
+			f.Gdef = &gdef.Table{
+				GlyphClass:      classdef.Table{0: gdef.GlyphClassBase, 1: gdef.GlyphClassBase, 2: gdef.GlyphClassMark},
+				MarkAttachClass: classdef.Table{2: 1},
+				MarkGlyphSets:   []coverage.Set{{0: true, 1: true, 2: true}, {2: true}},
+			}
 		case 1:
 			spec.Gdef = "classes"
 			f.Gdef = &gdef.Table{GlyphClass: classdef.Table{1: gdef.GlyphClassBase, 2: gdef.GlyphClassMark}}
